@@ -526,7 +526,7 @@ type c10BCase struct {
 
 var c10Strings = []string{"", "x", " a<b&c ", "é\n日本", strings.Repeat("long ", 60)}
 var c10Max = []int64{0, 1, 1<<63 - 1}
-var c10Sets = [][]string{nil, {"VEVENT"}, {"VTODO", "VJOURNAL"}}
+var c10Sets = [][]string{nil, {"VEVENT"}, {"VTODO", "VJOURNAL"}, {}}
 
 func c10JudgeB(c c10BCase) (clause, detail string) {
 	defer func() {
@@ -573,7 +573,7 @@ func c10JudgeB(c c10BCase) (clause, detail string) {
 
 // ---------- part C: multiget per-href outcome (raw multistatus read independently) ----------
 
-var c10Outcomes = []string{"ok1", "ok2", "missing", "forbidden", "error", "wrapped-locked", "wrapped-missing"}
+var c10Outcomes = []string{"ok1", "ok2", "missing", "forbidden", "error", "wrapped-locked", "wrapped-missing", "unassigned-code"}
 
 func c10JudgeC(kind string, list []int) (clause, detail string) {
 	ext, ns, rootName := ".ics", nsCal, "calendar-multiget"
@@ -581,9 +581,11 @@ func c10JudgeC(kind string, list []int) (clause, detail string) {
 		ext, ns, rootName = ".vcf", nsCard, "addressbook-multiget"
 	}
 	paths := map[string]string{"ok1": "/u/c/k1/one" + ext, "ok2": "/u/c/k1/two x" + ext, "missing": "/u/c/k1/missing" + ext, "forbidden": "/u/c/k1/forbidden" + ext, "error": "/u/c/k1/error" + ext,
-		"wrapped-locked": "/u/c/k1/wl" + ext, "wrapped-missing": "/u/c/k1/wm" + ext}
+		"wrapped-locked": "/u/c/k1/wl" + ext, "wrapped-missing": "/u/c/k1/wm" + ext, "unassigned-code": "/u/c/k1/uc" + ext}
 	// a backend may wrap its HTTP error (fmt.Errorf("...: %w", err)); the status is still the backend's own
 	errs := map[string]error{paths["forbidden"]: webdav.NewHTTPError(403, fmt.Errorf("no")), paths["error"]: fmt.Errorf("backend exploded"),
+		// a status code without a registered reason phrase: the status line keeps its second SP
+		paths["unassigned-code"]: webdav.NewHTTPError(499, fmt.Errorf("client closed request")),
 		paths["wrapped-locked"]:  fmt.Errorf("store: %w", webdav.NewHTTPError(423, fmt.Errorf("locked"))),
 		paths["wrapped-missing"]: fmt.Errorf("store: %w", fmt.Errorf("layer: %w", webdav.NewHTTPError(404, fmt.Errorf("gone"))))}
 	var h http.Handler
@@ -645,6 +647,10 @@ func c10JudgeC(kind string, list []int) (clause, detail string) {
 		case "wrapped-locked":
 			if r.Status != 423 {
 				return "multiget-error-status", fmt.Sprintf("resource whose backend error wraps a 423 reported with status %d", r.Status)
+			}
+		case "unassigned-code":
+			if r.Status != 499 {
+				return "multiget-error-status", fmt.Sprintf("resource failing with the unassigned code 499 reported with status %d", r.Status)
 			}
 		case "wrapped-missing":
 			if r.Status != 404 {
@@ -890,7 +896,7 @@ func init() {
 		for _, kind := range []string{"caldav", "carddav"} {
 			for ni, n := range names {
 				for d := range c10Strings {
-					bcases = append(bcases, c10BCase{Kind: kind, Name: n, Disp: d, Desc: (d + ni) % len(c10Strings), Max: (d + ni) % 3, Set: (d + ni/2) % 3})
+					bcases = append(bcases, c10BCase{Kind: kind, Name: n, Disp: d, Desc: (d + ni) % len(c10Strings), Max: (d + ni) % 3, Set: (d + ni/2) % len(c10Sets)})
 				}
 			}
 			for d := range c10Strings {
